@@ -258,6 +258,11 @@ class Ctx:
             elif k == "ln":
                 ax.append("(=> (> %s 0.0) (<= %s (- %s 1.0)))" % (args[0], u, args[0]))
                 ax.append("(=> (= %s 1.0) (= %s 0.0))" % (args[0], u))
+                # exp(ln x) = x and ln(exp a) = a between occurrences
+                for i2, (k2, ids2, args2) in sorted(apps.items()):
+                    if k2 != "exp": continue
+                    ax.append("(=> (and (> %s 0.0) (= %s %s)) (= u%d %s))" % (args[0], args2[0], u, i2, args[0]))
+                    ax.append("(=> (= %s u%d) (= %s %s))" % (args[0], i2, u, args2[0]))
             elif k in ("sin", "cos"):
                 ax.append("(and (<= (- 1.0) %s) (<= %s 1.0))" % (u, u))
                 ax.append("(=> (= %s 0.0) (= %s %s))" % (args[0], u, "0.0" if k == "sin" else "1.0"))
@@ -268,6 +273,22 @@ class Ctx:
                 e = self.const_value(ids[1])
                 b = args[0]
                 ax.append("(=> (>= %s 0.0) (>= %s 0.0))" % (b, u))
+                if e is None:
+                    # symbolic exponent
+                    ex = args[1]
+                    ax.append("(=> (and (= %s 0.0) (> %s 0.0)) (= %s 0.0))" % (b, ex, u))
+                    ax.append("(=> (= %s 1.0) (= %s 1.0))" % (b, u))
+                    ax.append("(=> (> %s 0.0) (> %s 0.0))" % (b, u))
+                    ax.append("(=> (= %s 1.0) (= %s %s))" % (ex, u, b))
+                    ax.append("(=> (and (>= %s 0.0) (<= %s 1.0) (>= %s 0.0)) (<= %s 1.0))" % (b, b, ex, u))
+                    # inverse exponents between occurrences: pow(pow(x, e2), e1) = x when e1 * e2 = 1
+                    for i2, (k2, ids2, args2) in sorted(apps.items()):
+                        if k2 != "pow" or i2 == i: continue
+                        ax.append("(=> (and (>= %s 0.0) (= %s u%d) (= (* %s %s) 1.0)) (= %s %s))" % (args2[0], b, i2, ex, args2[1], u, args2[0]))
+                    # congruence with other symbolic-exponent powers
+                    for i2, (k2, ids2, args2) in sorted(apps.items()):
+                        if k2 != "pow" or i2 <= i: continue
+                        ax.append("(=> (and (= %s %s) (= %s %s)) (= %s u%d))" % (b, args2[0], ex, args2[1], u, i2))
                 if e is not None:
                     if e > 0:
                         ax.append("(=> (= %s 0.0) (= %s 0.0))" % (b, u))
@@ -601,6 +622,15 @@ def check_path(prop, prog, meta, rec, timeout):
                 break
             if vv != "sat":
                 break
+    # 0c. auxiliary definedness lemmas: SMT-LIB division is total, so a value VC asked before its divisors are
+    # known non-zero can get spurious models. Every partial operation under an ensure is tried as a lemma first
+    # (short timeout); the proven ones become premises. Unproven ones are simply not assumed.
+    if not hasattr(ctx, "proven_lemmas"): ctx.proven_lemmas = []
+    for lname, lsmt in ctx.definedness([c for _, c in goals]):
+        nid = int(lname.rsplit(".n", 1)[1])
+        vv, sv, dtv, outv, qp = solve(ctx.query(lsmt, [nid]), timeout=min(timeout, 5), tag=base + ".aux." + lname)
+        if vv == "unsat":
+            ctx.proven_lemmas.append(lsmt)
     # 1. definedness
     # definedness: only for values the REAL code produced (declared outputs); spec-side terms of the ensures are not obligations
     dgoals = ctx.definedness([c for _, c in rec["outputs"]])
